@@ -275,6 +275,9 @@ func renderPT(r *Rng, t *PT, ctx string) string {
 			if r.Chance(1, 8) {
 				rhs = fmt.Sprintf("$00%d", t.Ph)
 			}
+			if r.Chance(1, 20) { // leading zeros are digits like any other: `number ::= digit { digit }`
+				rhs = fmt.Sprintf("$%s%d", strings.Repeat("0", 1+r.Intn(30)), t.Ph)
+			}
 		} else {
 			rhs = "\"" + strings.ReplaceAll(unhx(t.V), "\"", "\"\"") + "\""
 		}
@@ -323,7 +326,7 @@ func renderPQ(r *Rng, q *PQ) string {
 	return Pick(r, []string{"", " ", "\n"}) + s + Pick(r, []string{"", " ", "\n\t"})
 }
 
-var mutationTokens = []string{"(", ")", "&", "|", "^", "=", ",", ";", "\"", "\"x\"", "$1", "$0", "$", "a", "b", " ", "\"unterminated", "$99999999999999999999", "$4294967297", "$2147483648", "$2147483647", "\x00", "\xff", "é", "!", "-", "1a", "_a", "\"\"", "a = \"1\""}
+var mutationTokens = []string{"(", ")", "&", "|", "^", "=", ",", ";", "\"", "\"x\"", "$1", "$0", "$", "a", "b", " ", "\"unterminated", "$99999999999999999999", "$4294967297", "$2147483648", "$2147483647", "\x00", "\xff", "é", "\ufeff", "$0000000000007", "!", "-", "1a", "_a", "\"\"", "a = \"1\""}
 
 func mutateText(r *Rng, s string) string {
 	n := 1 + r.Intn(3)
@@ -457,6 +460,8 @@ var parseCorpus = []string{
 	`(a = "1"`, `^`, ``, ` `, `a`, `a =`, `a = "`, `a = ""`, `a = """"`, `a = """`, `a = "1" & `, `& a = "1"`,
 	`a = "1" ; b ; c`, `a = "1" b = "2"`, `^^a="1"`, `(((a="1")))`, `a = "1" ; b, c, d`, "a = \"1\"\x00", "\xff", `a = "1" ; 1b`,
 	`a = "x" ; b "`, `a = "x" "`, `a = "x""`,
+	"\ufeffa = \"1\"", "\ufeff a = \"1\"", "a = \"1\"\ufeff", "a = \"\ufeff\"", "\ufffea = \"1\"",
+	`a = $00000000001`, `a = $02147483647`, `a = $000000000000000000000000000002`, `a = $002147483648`, `a = $00000000000`,
 }
 
 // ---------- C10 ----------
@@ -569,6 +574,34 @@ func runC10(rep *Report, r *Rng, tier string) {
 		}
 		runFmtCase(o, c, rep)
 		rep.Count("random-trees")
+	}
+	// deep nesting: the recursive formatter and parser must agree far beyond everyday depths
+	for _, depth := range []int{3000, 12000} {
+		for _, alt := range []bool{false, true} {
+			t := &PT{Op: "E", C: hx("a"), V: hx("1")}
+			for k := 0; k < depth; k++ {
+				switch {
+				case !alt:
+					t = &PT{Op: "N", Kids: []*PT{t}}
+				case k%2 == 0:
+					t = &PT{Op: "A", Kids: []*PT{t, {Op: "E", C: hx("b"), V: hx("2")}}}
+				default:
+					t = &PT{Op: "O", Kids: []*PT{t, {Op: "E", C: hx("c"), V: hx("3")}}}
+				}
+			}
+			pq := (&PQ{T: t}).Proto()
+			text, ok := safeFormat(pq)
+			res, q2 := safeParse(text)
+			rep.Eval(fmt.Sprintf("deep-%d-%v", depth, alt), true)
+			rep.Count("deep-trees")
+			if !ok || q2 == nil {
+				rep.Violate(Violation{Kind: "input", Signature: "C10:formatted-text-rejected", What: fmt.Sprintf("tree nested %d levels (alternating=%v): formatted text is not accepted", depth, alt), Expected: "accepted", Actual: trunc(res, 200), Case: map[string]any{"depth": depth, "alternating": alt}})
+				continue
+			}
+			if normPT(t).Show() != normPT(ptOfProto(q2.Expr)).Show() {
+				rep.Violate(Violation{Kind: "input", Signature: "C10:roundtrip-changes-meaning", What: fmt.Sprintf("tree nested %d levels: round trip changes the tree", depth), Expected: "same normal form", Actual: "different", Case: map[string]any{"depth": depth, "alternating": alt}})
+			}
+		}
 	}
 	rep.OracleCalls = o.n
 }
